@@ -71,7 +71,7 @@ def gen_parts(rng, ctxname, ids, off=False):
                 rid = None
                 src = exprs.gen_expr(rng, 0, avoid='')
                 if rng.random() < .15:
-                    src = rng.choice(['o', 'h', 'nn', 'by', 'z', 'e'])
+                    src = rng.choice(['o', 'h', 'nn', 'by', 'z', 'e', 'ss'])
             parts.append(['expr', src, None, rid])
     # merge adjacent literals
     merged = []
